@@ -1762,6 +1762,56 @@ async fn a_hidden_element_does_not_appear_in_search() {
 }
 
 #[tokio::test]
+async fn hidden_elements_do_not_use_up_a_limited_search() {
+    // §104: not paged over. Secret Concepts that match the term better than
+    // the public one must not push it out of a small page.
+    let nexus = stocked("search_window").await;
+    two_classified_concepts(&nexus).await;
+    let owner = nexus.system_session();
+    for index in 0..6u64 {
+        let response = run_as(
+            &owner,
+            r#"CREATE CONCEPT ?c { TYPE "Person" NAME "Note Note Note" }"#,
+        )
+        .await;
+        assert_eq!(response.status, TopLevelStatus::Succeeded);
+        owner
+            .classify(
+                DEFAULT_SPACE,
+                ElementId::new(anda_kip::ElementKind::Concept, index + 3),
+                "secret",
+            )
+            .await
+            .unwrap();
+    }
+    let reader = agent(nexus.governance(), "kip:principal:reader").await;
+    grant_read(&nexus, &reader, "public").await;
+    let session = nexus.session(AuthContext::principal(&reader));
+
+    let names = |response: &Response| -> Vec<String> {
+        response.first_result().unwrap()["hits"]
+            .as_array()
+            .unwrap()
+            .iter()
+            .map(|hit| {
+                hit["element"]["name"]
+                    .as_str()
+                    .unwrap_or_default()
+                    .to_string()
+            })
+            .collect()
+    };
+    let whole = run_as(&session, r#"SEARCH CONCEPT "Note" LIMIT 100"#).await;
+    assert_eq!(names(&whole), vec!["Public Note".to_string()]);
+    let first = run_as(&session, r#"SEARCH CONCEPT "Note" LIMIT 1"#).await;
+    assert_eq!(
+        names(&first),
+        vec!["Public Note".to_string()],
+        "the one readable match is the first page, however many unreadable ones outrank it"
+    );
+}
+
+#[tokio::test]
 async fn a_space_wide_count_is_withheld_from_a_narrower_principal() {
     // §103: a total is a fact about elements this caller may not discover.
     // Withheld with a reason beats a smaller number that reads as the truth.
